@@ -21,6 +21,13 @@ sed -i "s#target-dir = .*#target-dir = \"$H/target\"#" "$H/.cargo/config.toml"
 bin="$(echo "$PROP" | tr 'A-Z' 'a-z')"
 FEATURES=""; [ "$PROP" = "C29" ] && FEATURES="--features vectors"
 ( cd "$H" && cargo build --offline --profile verif -p vcheck --bin "$bin" $FEATURES ) >"$VR/build.log" 2>&1 || { echo "BUILD FAILED"; tail -30 "$VR/build.log"; exit 2; }
+# property-specific extra builds (front-end binaries, debug-assertion workers) from the MUTATED tree
+if [ -x "$H/pre/$bin.sh" ]; then
+  mkdir -p "$VR/target"
+  [ -d /verif/target/repo-bins ] && rsync -a /verif/target/repo-bins "$VR/target/" 2>/dev/null
+  VERIF_ROOT="$VR" "$H/pre/$bin.sh" "$TIER" >"$VR/pre.log" 2>&1 || { echo "PRE-BUILD FAILED"; tail -20 "$VR/pre.log"; exit 2; }
+fi
+export VERIF_BIN_DIR="$VR/target/repo-bins/release"
 VERIF_ROOT="$VR" VERIF_REPO="$WT" "$H/target/verif/$bin" "$TIER" "$@"
 rc=$?
 echo "mutant_run exit=$rc"
